@@ -20,6 +20,7 @@ package discovery
 
 import (
 	"context"
+	"encoding/json"
 	"errors"
 	"fmt"
 	ssi "github.com/nuts-foundation/go-did"
@@ -291,7 +292,26 @@ func (m *Module) validateRegistration(definition ServiceDefinition, presentation
 	if len(creds) != len(presentation.VerifiableCredential) {
 		return errPresentationDoesNotFulfillDefinition
 	}
+	// Match can select the same credential for more than one input descriptor,
+	// so equal lengths don't imply that every credential in the presentation was selected.
+	for _, presented := range presentation.VerifiableCredential {
+		if !containsCredential(creds, presented) {
+			return errPresentationDoesNotFulfillDefinition
+		}
+	}
 	return nil
+}
+
+// containsCredential checks whether the given credential is in the list, comparing their JSON representation.
+func containsCredential(list []vc.VerifiableCredential, credential vc.VerifiableCredential) bool {
+	credentialJSON, _ := json.Marshal(credential)
+	for _, curr := range list {
+		currJSON, _ := json.Marshal(curr)
+		if string(currJSON) == string(credentialJSON) {
+			return true
+		}
+	}
+	return false
 }
 
 func (m *Module) validateRetraction(serviceID string, presentation vc.VerifiablePresentation) error {
